@@ -75,7 +75,7 @@ func checkC08(t *testing.T, job *Job, res *Result) {
 			}
 		}
 		b := Bounds{D: 2, S: 0}
-		runS(t, job, res, "C08", scs, b, 0)
+		runS(t, job, res, "C08", withReversed(scs), b, 0)
 	}
 	res.Engine = "S+H"
 	res.Rule += "; stop/pause racing with the first requests after a deploy or a resume; afterwards every request must meet the closed gate"
